@@ -329,8 +329,10 @@ def sc_mapping(rng, consts, nparams, op):
         # a REDECLARATION of the primary template (same name, same type) and a secondary template, each with a mapping of its own:
         # parameters() / result() are those of the node's own mapping
         tname = sc.ident()
+        same = []
         for top in ('template', 'template', 'template2'):
             (t2,) = sc.nodes('%s %s %s %s' % (top, region, tname, fa), 1)
+            same.append(t2)
             m2 = sc.nodes('mapping %s #%d' % (region, rng.randrange(4)), 4)[0]
             for _ in range(rng.randint(0, 3)):
                 sc.nodes('param %s %s %s' % (m2, sc.ident(), rng.choice(sc.types)), 1)
@@ -339,6 +341,12 @@ def sc_mapping(rng, consts, nparams, op):
             sc.obs(t2)
             sc.emit('setresult %s %s' % (m2, rng.choice(results)), 'ok')
             sc.obs(t2)
+        # one of the declarations is recorded as THE definition of the set (shared by all of them): every declaration still answers
+        # with its own mapping's parameters and result
+        for d in (same[1], same[0], same[2]):
+            sc.emit('setdef %s %s' % (same[0], d), 'ok')
+            for t2 in same:
+                sc.obs(t2)
         (ft,) = sc.nodes('mk Function %s %s %s' % (prod, rng.choice(sc.types), sc.lit()), 1)
         (f,) = sc.nodes('fundecl %s %s %s' % (region, sc.ident(), ft), 1)
         sc.obs(f)
@@ -513,6 +521,10 @@ def sc_equalities(rng, consts, nwords):
     # by NUL, a word and its extension, words that differ in the last byte only
     words += ['vec\x00a', 'vec\x00b', 'vec\x00', 'vec', '\x00a', '\x00b', '\x00', 'Java', 'JavaScript', 'abcdefgh', 'abcdefgi',
               'abcdefghijklmnop', 'abcdefghijklmnoq']
+    # spellings whose bytes are not ASCII (multi-byte encodings: a size is a number of code units), and spellings that differ only by
+    # decoration, case or blanks (`stdcall`, `__stdcall`, `__stdcall__`...): different spellings all the same
+    words += ['caf\u00e9', 'cafe', '\u03c0', '\u00fcber', 'uber', '\u65e5\u672c', '\u65e5', 'na\u00efve\u2026', '\U0001f600',
+              'stdcall', '_stdcall', '__stdcall', '__stdcall__', 'stdcall_', '_', '__', 'Stdcall', 'STDCALL', 'stdcall ', ' stdcall', 'std call']
     words = sorted(set(words))
     while len(words) < nwords:
         words.append(sc.word(rng.choice(['a', 'bb', 'Ccc'])))
@@ -523,7 +535,7 @@ def sc_equalities(rng, consts, nwords):
         strs.append(sc.string(w))
     for w in words:
         logos.append(sc.logo(w))
-    for s in rng.sample(sorted(set(strs)), 8):
+    for s in sorted(set(strs)):
         sc.emit('sobs ' + s)
     for g in rng.sample(sorted(set(logos)), 8):
         sc.emit('gobs ' + g)
